@@ -258,6 +258,34 @@ def check_link_loss(ctx):
         cf = [n for n in cfg.real_nodes() if any(c == "self._communication_state.communicationfail" for c in n.call_names())]
         ok = len(cf) == 1 and ("COMMUNICATING", True) in _state_conds(cfg, cf[0])
         ctx.ob("C07.P3", occ.qualname, ok, "on_connection_closed leaves COMMUNICATING via communicationfail" if ok else "on_connection_closed does not perform communicationfail() exactly when COMMUNICATING", key="communicationfail", where=occ.where)
+    # the handler classes are assembled from capability mix-ins: whichever class of the hierarchy answers
+    # on_connection_closed first must pass the call on, or GemHandler's (the one that leaves COMMUNICATING) is never reached
+    if occ is not None:
+        for cname in ("GemEquipmentHandler", "GemHostHandler"):
+            leaf = repo.cls(cname)
+            chain = [k for k in leaf.mro if "on_connection_closed" in k.methods]
+            ctx.require(any(k.name == "GemHandler" for k in chain), f"{cname}: GemHandler.on_connection_closed is not in the method resolution order")
+            cut = []
+            for k in chain:
+                if k.name == "GemHandler":
+                    break
+                m_ = k.methods["on_connection_closed"]
+                ctx.touch(m_)
+                cfg_ = cfg_of(m_.node)
+                sup_ = [n for n in cfg_.real_nodes() if any(c == "super().on_connection_closed" for c in n.call_names())]
+                if not (len(sup_) == 1 and cfg_.count_on_paths(lambda n: n in sup_, cfg_.entry, cfg_.exit, no_exc=True) == (1, 1)):
+                    cut.append(m_.qualname)
+            ctx.ob("C07.P3", f"{cname}.on_connection_closed", not cut, "every override on the way to GemHandler.on_connection_closed passes the call on" if not cut else
+                   f"{cut} answer on_connection_closed for {cname} without calling super().on_connection_closed() on every path: GemHandler.on_connection_closed is never reached, the handler stays COMMUNICATING after the link is lost",
+                   key="link-loss-chain", where=leaf.where)
+    # "reported as established only after an exchange on the current link": what a handler keeps about its own link (the
+    # events of callers waiting for COMMUNICATING, ...) is its own - a mutable object made in a class body and changed in
+    # place belongs to every handler of the process, and one link's establishment wakes the waiters of another
+    family = [gh] + list(repo.subclasses("GemHandler"))
+    shared = rules.shared_class_state(repo, family)
+    ctx.ob("C07.P3", "GemHandler", not shared, f"no handler state is shared between handler objects ({len(family)} classes and their bases read)" if not shared else
+           "; ".join(f"`{o.name}.{n} = {norm(e)}` is created once in the class body and changed in place ({how}): every handler object of the process shares it" for o, n, e, how in shared[:3]),
+           key="per-object-state", where=gh.where)
     eq = repo.cls("GemEquipmentHandler").methods.get("on_connection_closed")
     if eq is not None:
         ctx.touch(eq)
